@@ -226,6 +226,16 @@ def first_true(gen):
     return False
 
 
+def g_default_if_empty(it, a):
+    """not on the property's list, used as a producer of memorized iterators: by its meaning (it returns either the
+    collection or the default) it has to look at one element when it is called, so the ideal version does that too"""
+    try:
+        first = next(it)
+    except StopIteration:
+        return iter([0])
+    return itertools.chain([first], it)
+
+
 def tk(a, x):
     return a['T'](x)
 
@@ -277,7 +287,7 @@ OPS = [
     Op('replaceMany', 'replaceMany($i%d, [$k%d], $j%d)', lambda x, a: M('replaceMany', x, a['i'], (a['k'],), a['j']),
        lambda it, a: g_replace(it, a['i'], a['k'], a['j']), needs_int=False, uses=('i', 'j', 'k')),
     # operators that hand on a memorized iterator (utils.memorize): defaultIfEmpty, assert, a let-bound memorize
-    Op('defaultIfEmpty', 'defaultIfEmpty([0])', lambda x, a: M('defaultIfEmpty', x, (0,)), lambda it, a: it,
+    Op('defaultIfEmpty', 'defaultIfEmpty([0])', lambda x, a: M('defaultIfEmpty', x, (0,)), g_default_if_empty,
        needs_int=False),
     Op('assert', 'assert(true)', lambda x, a: M('assert', x, lambda o: True), lambda it, a: it, needs_int=False),
     Op('memorize.let', '', lambda x, a: M('memorize', x), lambda it, a: it, needs_int=False,
